@@ -321,12 +321,13 @@ def qdist(q1: np.ndarray, q2: np.ndarray) -> float:
     if q1.ndim == 1:
         q1 /= np.linalg.norm(q1)
         q2 /= np.linalg.norm(q2)
-        if np.allclose(q1, q2) or np.allclose(-q1, q2):
-            return 0.0
-        return min(np.linalg.norm(q1-q2), np.linalg.norm(q1+q2))
+        d = min(np.linalg.norm(q1-q2), np.linalg.norm(q1+q2))
+        return 0.0 if d <= 8.0*np.finfo(float).eps else d    # Equal up to the rounding of the normalization
     q1 /= np.linalg.norm(q1, axis=1)[:, None]
     q2 /= np.linalg.norm(q2, axis=1)[:, None]
-    return np.r_[[np.linalg.norm(q1-q2, axis=1)], [np.linalg.norm(q1+q2, axis=1)]].min(axis=0)
+    d = np.r_[[np.linalg.norm(q1-q2, axis=1)], [np.linalg.norm(q1+q2, axis=1)]].min(axis=0)
+    d[d <= 8.0*np.finfo(float).eps] = 0.0
+    return d
 
 def qeip(q1: np.ndarray, q2: np.ndarray) -> float:
     """
@@ -374,16 +375,8 @@ def qeip(q1: np.ndarray, q2: np.ndarray) -> float:
     0.0
     """
     _quaternions_guard_clauses(q1, q2)
-    q1, q2 = np.copy(q1), np.copy(q2)
-    if q1.ndim == 1:
-        q1 /= np.linalg.norm(q1)
-        q2 /= np.linalg.norm(q2)
-        if np.allclose(q1, q2) or np.allclose(-q1, q2):
-            return 0.0
-        return 1.0-abs(q1@q2)
-    q1 /= np.linalg.norm(q1, axis=1)[:, None]
-    q2 /= np.linalg.norm(q2, axis=1)[:, None]
-    return 1.0-abs(np.nansum(q1*q2, axis=1))
+    # In terms of the chord d = min(|q1-q2|, |q1+q2|): 1 - |q1.q2| = d^2/2 (exact zero for equal rotations, no cancellation)
+    return 0.5*qdist(q1, q2)**2
 
 def qcip(q1: np.ndarray, q2: np.ndarray) -> float:
     """
@@ -428,16 +421,8 @@ def qcip(q1: np.ndarray, q2: np.ndarray) -> float:
     0.0
     """
     _quaternions_guard_clauses(q1, q2)
-    q1, q2 = np.copy(q1), np.copy(q2)
-    if q1.ndim == 1:
-        q1 /= np.linalg.norm(q1)
-        q2 /= np.linalg.norm(q2)
-        if np.allclose(q1, q2) or np.allclose(-q1, q2):
-            return 0.0
-        return np.arccos(abs(q1@q2))
-    q1 /= np.linalg.norm(q1, axis=1)[:, None]
-    q2 /= np.linalg.norm(q2, axis=1)[:, None]
-    return np.arccos(abs(np.nansum(q1*q2, axis=1)))
+    # In terms of the chord d = min(|q1-q2|, |q1+q2|): arccos|q1.q2| = 2 arcsin(d/2) (well conditioned for small angles)
+    return 2.0*np.arcsin(np.clip(0.5*qdist(q1, q2), 0.0, 1.0))
 
 def qad(q1: np.ndarray, q2: np.ndarray) -> float:
     """
@@ -484,16 +469,8 @@ def qad(q1: np.ndarray, q2: np.ndarray) -> float:
 
     """
     _quaternions_guard_clauses(q1, q2)
-    q1, q2 = np.copy(q1), np.copy(q2)
-    if q1.ndim == 1:
-        q1 /= np.linalg.norm(q1)
-        q2 /= np.linalg.norm(q2)
-        if np.allclose(q1, q2) or np.allclose(-q1, q2):
-            return 0.0
-        return np.arccos(2.0*(q1@q2)**2-1.0)
-    q1 /= np.linalg.norm(q1, axis=1)[:, None]
-    q2 /= np.linalg.norm(q2, axis=1)[:, None]
-    return np.arccos(np.clip(2.0*np.nansum(q1*q2, axis=1)**2-1.0, -1.0, 1.0))
+    # In terms of the chord d = min(|q1-q2|, |q1+q2|): arccos(2(q1.q2)^2 - 1) = 4 arcsin(d/2) (well conditioned for small angles)
+    return 4.0*np.arcsin(np.clip(0.5*qdist(q1, q2), 0.0, 1.0))
 
 def rmse(x: np.ndarray, y: np.ndarray):
     """
